@@ -11,9 +11,9 @@ LMAX = {"quick": 3, "thorough": 5}
 SHARDS = {"quick": 8, "thorough": 14}
 NDOC = {"quick": 300, "thorough": 20000}
 EXHAUSTIVE = {"quick": True, "thorough": True}
-RULE = ("EXHAUSTIVE over all sequences of length <= L (L=3 quick, 5 thorough) over an alphabet of 21 "
+RULE = ("two focus alphabets (short-form disambiguation: 10 kinds; id./placeholder/roman pages: 12 kinds) enumerated to length 4 (quick) / 5 (thorough); EXHAUSTIVE over all sequences of length <= L (L=3 quick, 5 thorough) over an alphabet of 21 "
         "citation kinds, each kind a real object extracted by get_citations from a canonical snippet and "
-        "shallow-copied per use (distinct objects); plus random longer sequences over 41 kinds and every "
+        "shallow-copied per use (distinct objects); plus random longer sequences over 43 kinds and every "
         "list extracted from generated multi-case documents; oracle = structural checker (identity, order, "
         "disjointness, first element full, every full citation under exactly one resource, sharing iff "
         "independent keys equal, no unknown citations); non-trivial = sequence containing a full citation; "
@@ -21,8 +21,8 @@ RULE = ("EXHAUSTIVE over all sequences of length <= L (L=3 quick, 5 thorough) ov
 ASSUMPTIONS = ["independent key of a case citation = (volume, page, guessed-edition-or-written reporter); "
                "law/journal = all groups + candidate editions (anchors: ResourceCitation.__hash__)",
                "exhaustive for the stated alphabet and bound only"]
-FLOORS = {"quick": {"sequences": R.n_sequences(3), "extracted_lists": 500, "full_pairs_compared": 5000},
-          "thorough": {"sequences": R.n_sequences(5), "extracted_lists": 30000, "full_pairs_compared": 2000000}}
+FLOORS = {"quick": {"sequences": R.n_sequences(3), "focus_sequences": R.n_focus_sequences(3), "extracted_lists": 500, "full_pairs_compared": 5000, "member_pair_lists": 500},
+          "thorough": {"sequences": R.n_sequences(5), "focus_sequences": R.n_focus_sequences(5), "extracted_lists": 30000, "full_pairs_compared": 2000000}}
 
 
 def plan(tier, seed):
@@ -64,6 +64,10 @@ def run_shard(spec, rec):
             rec.nontrivial(combo)
         if len(combo) == 3 and len(rec.samples) < 2 and combo[0].startswith("full"):
             rec.sample(dict(sequence=combo))
+    for combo in R.focus_sequences(spec["lmax"], spec["i"], spec["nshards"]):
+        check_seq(R.instantiate(protos, combo), combo, rec, resolve_citations)
+        rec.count("focus_sequences")
+        rec.nontrivial(combo)
     # random longer sequences over the extended alphabet
     rng = random.Random(spec["seed"])
     allk = list(protos)
@@ -72,6 +76,42 @@ def run_shard(spec, rec):
         check_seq(R.instantiate(protos, combo), combo, rec, resolve_citations)
         rec.count("random_sequences")
         rec.nontrivial(combo)
+    # the same rare-template citation written twice, and two different members of one pattern: equal
+    # citations must share a resource, unequal ones must not (patterns of the whole database, incl.
+    # 'NY Slip Op', 'Misc. 3d', page-with-letter and year-in-volume templates)
+    import re as _re
+    from eyecite.models import FullCaseCitation
+    from vmon.rxgen import sample
+    fullx = [e for e in gen.DB.cit_extractors if not e.extra["short"] and e.regex.startswith(gen.PRE)
+             and any(x.reporter.source == "reporters" for x in list(e.extra["exact_editions"]) + list(e.extra["variation_editions"]))]
+    for _ in range(spec["ndoc"] // 2):
+        e = rng.choice(fullx)
+        body = e.regex[len(gen.PRE):-len(gen.POST)]
+        rx = _re.compile(body, e.flags)
+        cores = []
+        for _t in range(12):
+            try:
+                c0 = sample(body, rng, e.flags, maxrep=2)
+            except Exception:
+                break
+            if rx.fullmatch(c0) and "\n" not in c0:
+                cores.append(c0)
+            if len(cores) == 2:
+                break
+        if not cores:
+            continue
+        texts = [f"Alphaxo v. Betaxo, {cores[0]} (1999).", f"See {cores[0]}, at 5.", f"Gammaxo v. Deltaxo, {cores[-1]}."]
+        seq = []
+        for t in texts:
+            try:
+                got = [c for c in get_citations(t) if isinstance(c, FullCaseCitation)]
+            except Exception:
+                got = []
+            if len(got) == 1:
+                seq.append(got[0])
+        if len(seq) >= 2 and check_seq(seq, dict(member_texts=texts), rec, resolve_citations) is not None:
+            rec.count("member_pair_lists")
+            rec.nontrivial(texts)
     # lists extracted from documents
     for k in range(spec["ndoc"]):
         text = R.resolution_doc(rng) if k % 3 else gen.dense_doc(rng, hostile=0.2)
@@ -95,5 +135,9 @@ def replay(w, rec):
         protos = R.build_protos(extra=True)
         protos.update(R.dynamic_id_kinds(protos, ER.MAX_OPINION_PAGE_COUNT))
         check_seq(R.instantiate(protos, c["sequence"]), c["sequence"], rec, resolve_citations)
+    elif "member_texts" in c:
+        from eyecite.models import FullCaseCitation
+        seq = [x for t in c["member_texts"] for x in get_citations(t) if isinstance(x, FullCaseCitation)]
+        check_seq(seq, c, rec, resolve_citations)
     else:
         check_seq(get_citations(c["text"]), c, rec, resolve_citations)
